@@ -78,6 +78,9 @@ func (x *Exec) atCallAssertionsArgs(s *State, site ssa.Instruction, calleeName s
 		if ac.Site != "" && !strings.Contains(x.label(s, site), ac.Site) {
 			continue
 		}
+		if s.top().fn == x.fn {
+			x.clauseHit[ac] = true
+		}
 		env := x.specEnvFrame(s)
 		for i, a := range args {
 			env.lets[fmt.Sprintf("arg%d", i)] = a
